@@ -2,6 +2,7 @@
 
 from __future__ import annotations
 
+import numpy as np
 from hypothesis import strategies as st
 
 from vlib import boot  # noqa: F401
@@ -142,6 +143,45 @@ def body_dag(data) -> Outcome:
     if not inter and len(S) == len(outs):
         check_map("map-plain", lambda: p.map(dict(I), **kw))
 
+    # ---- map(auto_subpipeline=True) without output_names: the requested outputs are the leaves -----------
+    consumed = {q for f in m.funcs.values() for q in f["params"] if q not in f["bound"]}
+    # pipefunc's notion of a leaf is a *function* none of whose outputs is consumed: an unconsumed component of a
+    # tuple output whose sibling is consumed is not selected by default
+    leaves = [o for f in m.funcs.values() if not (set(f["outs"]) & consumed) for o in f["outs"]]
+    cand2 = [f for f in m.cone(tuple(leaves)) if not (set(m.funcs[f]["outs"]) & set(leaves))]
+    cut2 = [cand2[i] for i in _bits(data["cut_bits"], len(cand2))]
+    sup2 = {o: f"S:{o}" for f in cut2 for o in m.funcs[f]["outs"]}
+    vals2 = dict(sup2)
+    vals2.update({r: f"V{r}" for r in m.needed_roots(tuple(leaves), tuple(sup2))})
+    want2: dict = {}
+    calls2: list = []
+    used2: set = set()
+    for s in leaves:
+        v, _, _, _, c, used = m.evaluate(s, vals2)
+        want2[s] = v
+        used2 |= used
+        calls2 += [x for x in c if x not in calls2]
+    I3 = {k: v for k, v in vals2.items() if k in used2}
+    # every leaf must be downstream of something supplied (otherwise the leaf is not part of the selection)
+    def fed_by(s):
+        return {q for f in m.cone(s, tuple(sup2)) for q in m.funcs[f]["params"] if q not in m.funcs[f]["bound"]}
+
+    if leaves and I3 and all(fed_by(s) & set(I3) for s in leaves):
+        units += 1
+        del log[:]
+        try:
+            res = p.map(dict(I3), auto_subpipeline=True, **kw)
+            for s in leaves:
+                if s not in res:
+                    out.fail("map-auto_subpipeline-no-names-missing-output", s)
+                elif res[s].output != want2[s]:
+                    out.fail("map-auto_subpipeline-no-names-value", f"{s}: got {res[s].output!r} want {want2[s]!r}")
+            if sorted(log) != sorted(calls2):
+                out.fail("map-auto_subpipeline-no-names-calls", f"I={sorted(I3)} got {sorted(log)} want {sorted(calls2)}")
+        except Exception as e:
+            out.fail(exc_bucket(e, "map-auto_subpipeline-no-names-refused"), f"I={sorted(I3)}: {exc_detail(e)}", {"I": sorted(I3)})
+        out.labels.append("auto_subpipeline-without-output_names" + ("-cut" if any(k in sup2 for k in I3) else "-roots"))
+
     # ---- not computable: remove one required root -----------------------------------------------------
     required = [r for r in roots_needed if r in I and r not in m.defaults]
     if required:
@@ -223,6 +263,41 @@ def body_map(data) -> Outcome:
     got = {f: log.count(f) for f in set(log)}
     if got != want:
         out.fail("map-output_names-calls", f"S={S}: got {got} want {want}")
+    # ---- selection + fixed_indices: an axis that only functions *outside* the selection reduce can be fixed ----------
+    from checks.c06_partial import independent_axes, never_named_axis
+
+    sub_prog = dict(prog, funcs=[fn for fn in prog["funcs"] if fn["name"] in cone])
+    ind_sub = independent_axes(sub_prog)
+    if ind_sub and never_named_axis(sub_prog):
+        # C06's recorded finding (mapspec_axes has no name for an axis that is ':' everywhere; every fixed_indices
+        # request on such a pipeline raises KeyError) is excluded by construction here and counted
+        out.labels.append("excluded:C06-axis-never-named")
+    elif ind_sub and not out.failures:
+        a = ind_sub[data["s_bits"] % len(ind_sub)]
+        k = (data["s_bits"] // 3) % prog["sizes"][a]
+        if a not in independent_axes(prog):
+            out.labels.append("fixed-axis-reduced-outside-the-selection")
+        del log[:]
+        try:
+            res = p.map(inputs, output_names=set(S), fixed_indices={a: k}, internal_shapes=ish, parallel=False,
+                        storage=mp.storage_arg(prog) if isinstance(prog["storage"], str) else "dict")  # fmt: skip
+        except Exception as e:
+            out.fail(exc_bucket(e, "map-output_names-fixed_indices-refused"), f"S={S} fixed {a}={k}: {exc_detail(e)}")
+            return out
+        for s_ in S:
+            fn = prod[s_]
+            if not fn["mapspec"] or a not in fn["out_axes"] or s_ not in res:
+                continue
+            key = tuple(k if ax == a else slice(None) for ax in fn["out_axes"])
+            try:
+                g = mp.canon(np.ma.getdata(res[s_].output)[key])
+                w = mp.canon(np.asarray(ref[s_], dtype=object)[key])
+            except Exception as e:
+                out.fail(f"map-output_names-fixed_indices-unreadable:{type(e).__name__}", f"{s_}: {exc_detail(e)}")
+                continue
+            if g != w:
+                out.fail("map-output_names-fixed_indices-value", f"{s_}[{a}={k}]: got {str(g)[:200]} want {str(w)[:200]}")
+        out.labels.append("selection-with-fixed_indices")
     return out
 
 
